@@ -25,5 +25,5 @@ var Related = map[string][]string{
 	"C05": {"C03", "C13"}, "C07": {"C12", "C09", "C18"}, "C08": {"C01", "C03"}, "C09": {"C07"},
 	"C10": {"C17", "C01"}, "C11": {"C17", "C13"}, "C12": {"C15", "C16", "C07", "C17"}, "C13": {"C14", "C11"},
 	"C14": {"C13"}, "C15": {"C12", "C13"}, "C16": {"C12", "C17"}, "C17": {"C12", "C10", "C11"},
-	"C18": {"C09", "C07"}, "C19": {"C10", "C11"}, "C20": {"C03"},
+	"C18": {"C09", "C07"}, "C19": {"C10", "C11", "C06"}, "C20": {"C03"},
 }
